@@ -13,6 +13,7 @@ import (
 	"crypto/elliptic"
 	"crypto/sha256"
 	"encoding/base32"
+	"encoding/base64"
 	"errors"
 	"fmt"
 	"math/big"
@@ -41,7 +42,12 @@ const (
 	nKeys      = 4
 	// key indices nKeys .. nKeys+nBad-1: keys that cannot be serialised (see keys)
 	nBad = 2
+	// key indices nKeys+nBad ..: serialisable keys with a large encoding (RSA-4096, 2355 bytes)
+	nBig = 1
 )
+
+// bigKeyB64 is a libp2p-marshalled RSA-4096 private key generated once with crypto/rand.
+const bigKeyB64 = "CAASrhIwggkqAgEAAoICAQCfgyyysDuWx89cq8TxSGXsZjc9/uqtT3cAGomJx8RMQf+rskjhWpfiP64F8rQ+LiydlKk00PFcE2BAF0Mk7S7xExHq//xkoDx8bWd17PzkF8Uq3vpQ95wSfdbsdYAafxNDPkaVJshn8VwpB1ZsIaLqUJU9dsy80Xs9PDBqwJuGDvArDIyHw55Zx5DZ+DtvA+dzkoJspgfAcU0iehrIcmJrwCmex8I28b+UX5z5xadyTYyCRjbuViIbfGbPmtG6jB++ehRs7y3VYdQSo7r9J1lxBxExSys0u2QHDtb8l1Cs0ViZhX72chxZo80sVv8hk/uirUZ0ZMKwKayw6oECTQMxBlL9SyFbtMQ6r+rf+gafFqhHaxGK+UZQKaZ6VsdHa0Wmr5od664mFkTXFHiLXmKu5huROhUE6KJDpBYC0NE2f+VXFsaHyHWuywOHE0Lu8sPwdzvqPBCkYRzNWCN1/x61IhLJ+Xb7lnoMsUE0l70rQCsw/8ruHA95oB5zqWxxl4zA5R08y5d1i6nKLIobsrcd9Jg2CgtoBXSsPsUTtnS31oYGSQTd6fCIyl2BaBmeD3C8AqS4Kb1GcgITS1tp3cQIKPZcd6i1+QDqVuSBBAORyjqU68+GZrZ+BvXLnAy7wf5ZtahGqnLagFoniZWrqVy+no0I6O3uEj0NEtXdsjXdtQIDAQABAoICAC4mpDyQ67S829yaoBEVWtPyYQJRanG5X5tKkkeoYj2UDNaO7zIwZWhi90UmSwsAjg0LsYcj+ukifAMfF+CrtRyv4UvGQ66Tg9yWRMxkRGj0DapROEhL076v5QqmFmnUIW0frAlEXtBgD0OZqWIAu2Oi7AMMB8GLtGXrr7B7SKQZV1iFOXWgXgTozhqajQuaLBGOrqijwvNldKVIgc5D9gDp6MDVV/ZQrJbPsRm9G6zhDgm1Kfh8OEMOk6p2Rz77gsW4CYfZDcBCnTrFX3kWNPUUT9+cuYP4wcCfBQmw9/kAWuuUKb9BFb3DvD2bcBa1e6U+D/fmHUQd0qafOrNBN+42yfVaQULVrnYaK40CGTKxVph6MBD4005CZPZrmXlnqY4shEpxrUVErX0prG0ohfMbvdxc8qDRtFnzP3zJSP+YZMMdobOEsoRWssdzgBOvanHOfzYOPpk2W+qZu0PGF7v5yiEJ3LiP166LmujJx0dSCAYl68TCluhoLxVQgOEEdpNrATnCekT7SiljivSnoNP54OUuNA/OAnEHvYzDEu4rkau/4C6V+Mr0sbjRWlAiHNS+tnDprl0JRF3VCxOKo4ZPYjvzUhp6wtSqf6wUj4aOBeuFSZpD/qWszch8CJXL3ACtwuiq+rRFrLRscWCohIE2+SpTchMJfwmoZVrjcyTDAoIBAQDF2INEJmobqBIpE1zf2eYwcM7u1NhA2BAYBH06OXskNT0KIhXz5UZPlfDPEBErZs+0oBQZcm8ZbW7axvNKq0cfKTvNYo5GhGC6aISBlYag77IKL6mtg1rYQQL8u0+6gnTQd4DVXFsUqHtyTcw7dCZM0ebnXDiKs1j5iKPOZyYw90YNUF2KHkK8WHcit/lSzMVSrI2e2CE4UKDK+BQf+K9wpYg77LMS34cw7ywRiAQdQzdFFKAD0t3lrdcgSoXSNpoAaUBH6Rvpnxu3K5MmtTYNNU2DZm/ve0Irre5LMOFXS8xN8x7998Ctn1QjZvY2Ste+cBqwCf7/UQi4dWFpdU/PAoIBAQDOZifbZ3NNqYRi02RTGVubSewcdBBRX5t0aP8fUrJ0e25PXBWho2xIOp3/c4YBqcG5hPAm9eBS65RG7GGNe26ZgjNTo+neNU8n0adKnvqoVBiAmN1kbTPdsoZq9jv/9tXnOv+kN/j3DvHSXM/NjSMzxWdCKJbSM/7pDsZIOl3pq8dHLNjw92E4B6IeMi2SmTsFnSzv2EJaDfoMC0/6ZXgh8RudSw9ewqI4rhyzRZqrWFbIR7ogDW8Utgx6HaXshrNi4Adr0hLsWXNyakHs8hPBxD5rjD5miCIqLLQJ9Qc2yCx7/ConF6Do0xX4hd7B4UuDM1Fn+Ee6QLoqa8gySTc7AoIBAQCZE4uE6EADBAiBFYUvgfWzlyTU74Qer83L93U43o6jljmTJIpduhCrtTSr0R+nuBWPCKhkhADn6J7z0SkepeUSfCHUKKQydWwt7n5PkPSogqz7aqNbKB3a4npAN2FZymQ9g6j/7ERgeHeDGiSh/50+pM2GRvlMf7Wg5JLxOSf4jOn7lSm6mu1BsyUCjNvwr5UhAXdV5p3VZ7TxNf7EOfLsMnd0/hAT0zVTrEopila8mWwjG/Eu5DFh6x5e0qo12p9PICBnQzqgiMW19JYXRe/7SjmeKF0FKxYom5ubO8eudmwuB6T8FXxUGcnM1nY7za6dnzlW6XUN8JHRvqhPI0BLAoIBAQDBvrUlSIu82CaUWhjvxHrwX0jLQMvchuG3OaRac9debksTJb6Md4p6lsOfeoLNZtuZ2UdRWzbSv571oIjGNZqRcN3bYp9y3hnKqAvgiTGD90T02gngbn3kWuPA3hleYgdSwlgcgAotaBLpxAOw0Q69V01hlhZVhUeA4ESSom9rnLs4fcm7EIxq+wdcTv/mf/4ee/clwZwvSrVwvuG5i6xkOB8S3NW1vwBmMlJwmiLhOtBjuqjl05Z1G5rEurX5PEyBwQhWVuE6iZFMUqBF2ste9Wcer4wX1Sw06LesLR0zeF4BmKi8/3olc5hJLOj4mBK5Ot/st+wk0wOuNHS9d2rnAoIBAQDDTSWzds6AzvS8ortmcxu/j+7aUdzKLKmshdhCiQXqMrJ+2ySKcVk3stz6pKxBANXZZpHC6nSz788CyEx9kNOj64DkVlee8sAcvLl7sfVTh8o71vPRirW0qVPyGbBCVvqeIFQgsdKCD2FHZ9jKE0Z8fAulUw/7SmcNyw7K+KC9kUnHJioiv5yAgmwwAfTe+JX8JO+HkkuFgQGxQVMtgYbZIqzIndaweIA3r/019W+YngIZEoGjNth8mGX83H1HjXd8NDEyQnkv6dI4gwHd5FzT5pOClwB0Eu2c3VXB0yYDQPfsSPaHny1FZfgzgRb661cqt4u/2p790fhXpj0AHD0Y"
 
 // ---------------------------------------------------------------------------
 // case
@@ -79,7 +85,7 @@ func (unexportableKey) Raw() ([]byte, error) {
 	return nil, errors.New("c40 harness: key material is not exportable")
 }
 
-func isBad(key int) bool { return key >= nKeys }
+func isBad(key int) bool { return key >= nKeys && key < nKeys+nBad }
 
 func keys() []ci.PrivKey {
 	keyOnce.Do(func() {
@@ -111,7 +117,18 @@ func keys() []ci.PrivKey {
 			if _, err := ci.MarshalPrivateKey(keyPool[i]); err == nil {
 				panic(fmt.Sprintf("c40 harness: key #%d was meant to be unserialisable but marshals", i))
 			}
+			keyRaw = append(keyRaw, nil)
 		}
+		raw, err := base64.StdEncoding.DecodeString(bigKeyB64)
+		if err != nil {
+			panic(err)
+		}
+		bk, err := ci.UnmarshalPrivateKey(raw)
+		if err != nil {
+			panic(err)
+		}
+		keyPool = append(keyPool, bk)
+		keyRaw = append(keyRaw, raw)
 	})
 	return keyPool
 }
@@ -262,7 +279,7 @@ func run(c Case) kit.Result {
 		if countUps(op.Name) > upBudget || strings.HasPrefix(op.Name, "/") && countUps(op.Name) > 0 {
 			return kit.Result{Classes: []string{"skipped-unsafe"}}
 		}
-		if op.Key < 0 || op.Key >= nKeys+nBad {
+		if op.Key < 0 || op.Key >= nKeys+nBad+nBig {
 			return kit.Result{Classes: []string{"skipped-bad-key-index"}}
 		}
 	}
@@ -616,6 +633,8 @@ func gen(t *rapid.T) Case {
 				op.Key = rapid.IntRange(0, nKeys-1).Draw(t, "key")
 				if rapid.IntRange(0, 5).Draw(t, "unserialisable") == 0 {
 					op.Key = nKeys + rapid.IntRange(0, nBad-1).Draw(t, "badkey")
+				} else if rapid.IntRange(0, 7).Draw(t, "bigkey") == 0 {
+					op.Key = nKeys + nBad + rapid.IntRange(0, nBig-1).Draw(t, "big")
 				}
 			}
 			used = append(used, op.Name)
@@ -627,7 +646,7 @@ func gen(t *rapid.T) Case {
 
 var spec = kit.Spec[Case]{
 	Prop: "C40", Name: "main",
-	Rule: "1..30 operations put/get/has/delete/list over names with '/', '..', NUL, unicode, case variants, names that look like encoded file names, lengths around the 156-byte limit, 4 ed25519 keys, and (about every sixth Put) one of 2 valid ci.PrivKey values whose Raw() fails so that the key cannot be serialised; FSKeystore and MemKeystore are each compared with a map model at every step (Put refuses to overwrite with ErrKeyExists, Get ErrNoSuchKey, Has, List as sets; Delete compared by resulting state), the keystore directory must hold exactly one regular file key_<lowercase base32(name)> per key with the marshalled key, decoy key files outside the directory must never be served, and a snapshot of the sandbox outside the directory must be unchanged. A Put of an unserialisable key is given to the filesystem keystore only: it must return an error and leave the map unchanged (Get, List, Has of every name used so far and the exact directory content are re-checked against the model, and the in-memory keystore keeps agreeing on every later operation). non-trivial = at some point two live names differ only by case, or a live name contains a path separator, or a name is used again after such a failed Put on it",
+	Rule:  "1..30 operations put/get/has/delete/list over names with '/', '..', NUL, unicode, case variants, names that look like encoded file names, lengths around the 156-byte limit, 4 ed25519 keys plus an RSA-4096 key (2355-byte encoding), and (about every sixth Put) one of 2 valid ci.PrivKey values whose Raw() fails so that the key cannot be serialised; FSKeystore and MemKeystore are each compared with a map model at every step (Put refuses to overwrite with ErrKeyExists, Get ErrNoSuchKey, Has, List as sets; Delete compared by resulting state), the keystore directory must hold exactly one regular file key_<lowercase base32(name)> per key with the marshalled key, decoy key files outside the directory must never be served, and a snapshot of the sandbox outside the directory must be unchanged. A Put of an unserialisable key is given to the filesystem keystore only: it must return an error and leave the map unchanged (Get, List, Has of every name used so far and the exact directory content are re-checked against the model, and the in-memory keystore keeps agreeing on every later operation). non-trivial = at some point two live names differ only by case, or a live name contains a path separator, or a name is used again after such a failed Put on it",
 	Quick: 1500, Thorough: 4000,
 	Gen: gen, Run: run,
 	Sample: func(c Case) any {
